@@ -150,6 +150,21 @@ struct ChainTree final : Tree, rb::chain<CNode> {
       pool.push_back(std::make_unique<CNode>());
       CNode* z = pool.back().get();
       z->key = k;
+      // An intrusive container takes the client's node as it comes.  Unlinked it is, but not necessarily brand-new: every other node
+      // has been the only member of another chain that is gone by now (it was that chain's root), and every third one carries
+      // whatever its storage held before (the colour the client's own code left there).  Whatever colour a node arrives with is
+      // not the tree's business: it colours what it links.
+      switch (pool.size() % 6) {
+      case 1: case 3: case 5: {
+         rb::chain<CNode> elsewhere;
+         elsewhere.insert(z, [](const CNode& a, const CNode& b) { return cmp(a, b); });
+         break;                                   // `elsewhere` ends here; z keeps the links (all null) and the colour it got there
+      }
+      case 2: z->color = rb::Color::Black; break;
+      case 4: z->color = rb::Color::Red; break;
+      default: break;
+      }
+      if (z->left() != nullptr or z->right() != nullptr or z->parent() != nullptr) return "bad-node";
       CNode* r = rb::chain<CNode>::insert(z, [](const CNode& a, const CNode& b) { return cmp(a, b); });
       linked.emplace(k, z);
       return "size=" + std::to_string(this->size()) + "\n@ptr=" + (r == z ? "1" : "0");
@@ -190,6 +205,92 @@ struct ChainTree final : Tree, rb::chain<CNode> {
    }
 };
 
+// An element type whose construction is observable: every instance is counted (made, alive), and constructing one from a `Raising`
+// key fails.  The container must make an element only when the key is absent (one element, once), and a construction that fails
+// must leave it exactly as it was.
+struct Plain { long v; };
+struct Raising { long v; };
+struct Construction_failed { };
+struct Counted {
+   static inline long made = 0, alive = 0;
+   long v;
+   explicit Counted(const Plain& k) : v{k.v} { ++made; ++alive; }
+   explicit Counted(const Raising&) { throw Construction_failed{ }; }
+   Counted(const Counted&) = delete;
+   ~Counted() { --alive; }
+};
+struct Counted_cmp {
+   long operator()(const Counted& data, const Plain& key) const { return data.v < key.v ? -1 : (key.v < data.v ? 1 : 0); }
+   long operator()(const Counted& data, const Raising& key) const { return data.v < key.v ? -1 : (key.v < data.v ? 1 : 0); }
+};
+#if defined(__SANITIZE_ADDRESS__)
+extern "C" void __lsan_disable();
+extern "C" void __lsan_enable();
+#else
+static void __lsan_disable() { }
+static void __lsan_enable() { }
+#endif
+
+struct CountedTree final : Tree, rb::container<Counted> {
+   using Base = rb::container<Counted>;
+   std::map<long, Counted*> first;
+   long base_made, base_alive;
+   CountedTree() : base_made{Counted::made}, base_alive{Counted::alive} { }
+   std::string shape() { bool ok = true; return dump(ok); }
+   std::string insert(const Key& key) override {
+      const long k = key.at(0);
+      const bool present = first.count(k) != 0;
+      // first the same key with a construction that fails: refused exactly when an element would have to be made, and then nothing
+      // has changed -- size, shape, colours, links, the number of elements alive
+      const auto before = shape();
+      const auto size_before = this->size();
+      bool threw = false;
+      Counted* got = nullptr;
+      __lsan_disable();          // (the storage of a node whose element could not be made is not given back by the library as it is:
+                                 //  not what is being checked here)
+      try { got = Base::insert(Raising{k}, Counted_cmp{ }); } catch (const Construction_failed&) { threw = true; }
+      __lsan_enable();
+      bool links_ok = true; std::string after; int nodes = 0, height = 0;
+      dump_rec(this->root, static_cast<rb::node<Counted>*>(nullptr), after, links_ok, [](rb::node<Counted>* n) { return std::to_string(n->data.v); }, nodes, 0, height);
+      bool failed_ok = threw == not present and (present ? got == first[k] : got == nullptr) and after == before and links_ok
+         and this->size() == size_before and static_cast<long>(nodes) == static_cast<long>(size_before)
+         and Counted::alive - base_alive == static_cast<long>(size_before);
+      // then the insertion proper: one element made when the key is absent, none when it is present
+      const long made_before = Counted::made;
+      Counted* p = Base::insert(Plain{k}, Counted_cmp{ });
+      const bool fresh = not present;
+      bool ok = p != nullptr and p->v == k and Counted::made - made_before == (fresh ? 1 : 0)
+         and Counted::alive - base_alive == static_cast<long>(this->size());
+      if (fresh) { first.emplace(k, p); ok = ok and this->size() == size_before + 1; }
+      else ok = ok and p == first[k] and this->size() == size_before;
+      return "size=" + std::to_string(this->size()) + " fresh=" + (fresh ? "1" : "0") + "\n@ptr=" + (ok ? "1" : "0")
+         + "\n@failed_construction_changes_nothing=" + (failed_ok ? "1" : "0");
+   }
+   std::string find(const Key& key) override {
+      const long made_before = Counted::made;
+      Counted* p = Base::find(Plain{key.at(0)}, Counted_cmp{ });
+      if (Counted::made != made_before) return "found=?made";
+      if (p == nullptr) return "found=none";
+      auto it = first.find(key.at(0));
+      return "found=" + std::to_string(p->v) + "\n@ptr=" + (it != first.end() and it->second == p ? "1" : "0");
+   }
+   std::string dump(bool& links_ok) override {
+      std::string out; int nodes = 0, height = 0;
+      dump_rec(this->root, static_cast<rb::node<Counted>*>(nullptr), out, links_ok, [](rb::node<Counted>* n) { return std::to_string(n->data.v); }, nodes, 0, height);
+      return out;
+   }
+   std::string pdump() override {
+      std::string out; int nodes = 0, height = 0; bool links_ok = true;
+      dump_rec(this->root, static_cast<rb::node<Counted>*>(nullptr), out, links_ok, [](rb::node<Counted>* n) { return std::to_string(n->data.v); }, nodes, 0, height, true);
+      return "n=" + std::to_string(this->size()) + " " + out;
+   }
+   std::string stat() override {
+      std::string out; int nodes = 0, height = 0; bool links_ok = true;
+      dump_rec(this->root, static_cast<rb::node<Counted>*>(nullptr), out, links_ok, [](rb::node<Counted>* n) { return std::to_string(n->data.v); }, nodes, 0, height);
+      return "nodes=" + std::to_string(nodes) + " height=" + std::to_string(height) + "\n@links=" + (links_ok ? "1" : "0");
+   }
+};
+
 // Address comparator: keys are indices into one contiguous array, so address order is index order.
 struct Cell { int id; };
 static std::vector<Cell> cells;
@@ -206,6 +307,7 @@ static std::unique_ptr<Tree> make_own(MakeKey m, Cmp c, ShowT s) { return std::m
 static std::unique_ptr<Tree> make_tree(const std::string& flavour, const std::string& cmp)
 {
    if (flavour == "chain") return std::make_unique<ChainTree>();
+   if (cmp == "counted") return std::make_unique<CountedTree>();
    if (cmp == "int")
       return make_own<int>([](const Key& k) { return k.at(0); },
                            [](int data, int key) { return data < key ? -1 : (key < data ? 1 : 0); },
@@ -246,7 +348,7 @@ int main()
       std::string op, a, b;
       is >> op >> a >> b;
       if (op.empty()) continue;
-      if (op == "new") { t = make_tree(a, b); std::cout << "ok" << std::endl; }   // flush: a later hang must not lose finished sequences
+      if (op == "new") { t.reset(); t = make_tree(a, b); std::cout << "ok" << std::endl; }   // flush: a later hang must not lose finished sequences
       else if (t == nullptr) std::cout << "bad-op\n";
       else if (op == "ins") std::cout << t->insert(parse_key(a)) << '\n';
       else if (op == "reins") std::cout << t->reinsert(parse_key(a)) << '\n';
